@@ -181,6 +181,19 @@ func fromTdxAttestationProto(at *tpb.QuoteV4) string {
 	return extracttdx.GCETcbObjectName(mrtd)
 }
 
+// quoteToProto is tabi.QuoteToProto for bytes of unknown origin. go-tdx-guest slices the signed
+// data, the certification data and the QE report by the sizes the quote declares before it compares
+// them with what is there, so it panics on a quote that is cut short or declares other sizes. Bytes
+// that it cannot take apart are not a TDX quote.
+func quoteToProto(quote []byte) (tdxquote any, err error) {
+	defer func() {
+		if r := recover(); r != nil {
+			tdxquote, err = nil, fmt.Errorf("malformed TDX quote: %v", r)
+		}
+	}()
+	return tabi.QuoteToProto(quote)
+}
+
 // Attestation will try to deserialize a given attestation in any of the supported formats and
 // return it packaged in the most general format.
 func Attestation(quote []byte) (*tpmpb.Attestation, error) {
@@ -244,7 +257,7 @@ func Attestation(quote []byte) (*tpmpb.Attestation, error) {
 	}
 
 	// Attempt to decode as a raw TDX quote.
-	if tdxquote, err := tabi.QuoteToProto(quote); err == nil {
+	if tdxquote, err := quoteToProto(quote); err == nil {
 		switch tq := tdxquote.(type) {
 		case *tpb.QuoteV4:
 			tpmat.TeeAttestation = &tpmpb.Attestation_TdxAttestation{TdxAttestation: tq}
